@@ -39,7 +39,7 @@ func c03Oracle(c *ParseCase) string {
 		// R declines to predict; the model-free part still applies: whatever is
 		// returned must consist of argv tokens, verbatim and in order
 		st.Label("R undetermined (" + ref.Undetermined + "): model-free check only")
-		rr := RunReal(c.D, c.Args, nil, &RealCfg{CmdHandler: c.CmdHandler, Handler: c.Handler})
+		rr := RunReal(c.D, c.Args, nil, &RealCfg{CmdHandler: c.CmdHandler, Handler: c.Handler, ExecErr: c.execErr()})
 		if rr.Panic != "" || rr.SetupErr != nil || rr.Err != nil {
 			return ""
 		}
@@ -86,9 +86,28 @@ func c03Oracle(c *ParseCase) string {
 		}
 		return ""
 	}
-	rr := RunReal(c.D, c.Args, nil, &RealCfg{CmdHandler: c.CmdHandler, Handler: c.Handler})
+	rr := RunReal(c.D, c.Args, nil, &RealCfg{CmdHandler: c.CmdHandler, Handler: c.Handler, ExecErr: c.execErr()})
 	if rr.Panic != "" || rr.SetupErr != nil {
 		st.Label("skip: panic or setup error")
+		return ""
+	}
+	if c.ExecErr != "" && ref.Err == nil && rr.Err == c.execErr() && (len(rr.B.ExecLog) > 0 || len(rr.CmdHand) > 0) {
+		// the parse as such succeeded and the command reported an error of its own:
+		// what is returned beside it is still what the command was given
+		st.Label("command returned an error of its own (" + c.ExecErr + ")")
+		if !strSliceEq(rr.Rest, ref.Rest) {
+			return fmt.Sprintf("the command failed with its own error (%s); remaining arguments returned %q, expected %q", c.ExecErr, rr.Rest, ref.Rest)
+		}
+		for _, e := range rr.B.ExecLog {
+			if !strSliceEq(e.Args, rr.Rest) {
+				return fmt.Sprintf("Execute received %q but the parser returned %q beside the command's error", e.Args, rr.Rest)
+			}
+		}
+		for _, e := range rr.CmdHand {
+			if !strSliceEq(e.Args, rr.Rest) {
+				return fmt.Sprintf("CommandHandler received %q but the parser returned %q beside the command's error", e.Args, rr.Rest)
+			}
+		}
 		return ""
 	}
 	if rr.Err == nil && ref.Err != nil && strings.HasPrefix(ref.Err.Why, "positional conversion of ") {
@@ -222,6 +241,7 @@ func TestC03(t *testing.T) {
 	runProp(t, "C03", func(t *rapid.T) *ParseCase {
 		c := genParseCase(t, c03Decl, c03Argv)
 		c.CmdHandler = rapid.Bool().Draw(t, "cmdhandler")
+		c.ExecErr = []string{"", "", "", "plain", "help"}[rapid.IntRange(0, 4).Draw(t, "execErr")]
 		// an unknown-option handler installed although IgnoreUnknown is set:
 		// the pass-through policy applies, nothing may be lost to the handler
 		if c.D.Has(flags.IgnoreUnknown) && rapid.IntRange(0, 3).Draw(t, "idleHandler") == 0 {
